@@ -69,6 +69,31 @@ class Spec:
             return f[2] == "t" and f[3] != "m" and holds_t(int(f[1]))
         return False
 
+    def news(self, tok):
+        """the calls of `operator new` any.h makes inside the operation, in order (as any.h is written): h = storage of a
+        holder, v = character buffer of the copy of a held std::string (Eigen takes matrix storage from malloc, the probes
+        own nothing; a moved-from string is empty and copies without allocating)"""
+        f = tok.split(":")
+        op, s = f[0], self.slots
+        clone = lambda k: ["h", "v"] if s[k][0] == "s" and s[k][1] != -1 else ["h"]
+        if op == "ca":
+            if self.free(int(f[1])) and self.live(int(f[2])) and f[3] != "r" and s[int(f[2])] != EMPTY:
+                return clone(int(f[2]))
+        elif op == "cv":
+            if self.free(int(f[1])):
+                return ["h", "v"] if f[2] != "r" and f[3] == "s" else ["h"]
+        elif op == "aa":
+            if self.live(int(f[1])) and self.live(int(f[2])) and f[3] != "r" and s[int(f[2])] != EMPTY:
+                return clone(int(f[2]))
+        elif op == "av":
+            if self.live(int(f[1])):
+                return ["h", "v"] if f[2] != "r" and f[3] == "s" else ["h"]
+        elif op == "vc":
+            a = int(f[1])
+            if self.live(a) and s[a] != EMPTY and s[a][0] == f[2] == "s" and f[3] != "m" and s[a][1] != -1:
+                return ["v"]
+        return []
+
     def apply(self, tok, hist=None, threw=None):
         """returns the result token; mutates the state; records the model branch taken in hist.
         A leading `!` arms the throwing probe: if the operation throws, nothing changes (the strong guarantee
@@ -79,6 +104,17 @@ class Spec:
             will = self.copies_thrower(tok) if threw is None else threw
             if hist is not None:
                 b = "armed:" + tok[:2] + (":throws" if will else ":no-copy-of-thrower")
+                hist[b] = hist.get(b, 0) + 1
+            if will:
+                return "threw"
+        elif tok[0] == "~":
+            # the (j+1)-th call of operator new inside the operation fails: the operation throws and changes nothing
+            j = 1 if tok[1] == "~" else 0
+            tok = tok[j + 1:]
+            nw = self.news(tok)
+            will = (len(nw) > j) if threw is None else threw
+            if hist is not None:
+                b = "nomem:%s:new#%d:%s" % (tok[:2], j + 1, ("fails-" + {"h": "holder-storage", "v": "value-buffer"}[nw[j]]) if len(nw) > j else "not-reached")
                 hist[b] = hist.get(b, 0) + 1
             if will:
                 return "threw"
@@ -227,7 +263,7 @@ def spec_follow(line, hout):
     pos = 0
     for i, tok in enumerate(ops):
         obs = ht[pos] if pos < len(ht) else None
-        out.append(sp.apply(tok, threw=(obs == "threw") if tok[0] == "!" else None))
+        out.append(sp.apply(tok, threw=(obs == "threw") if tok[0] in "!~" else None))
         out.append("c=%d" % sp.probes())
         pos += 2
         if full or i == len(ops) - 1:
@@ -253,7 +289,8 @@ def spec_line(line, rmove=False):
     return " ".join(out)
 
 
-_RVAL = re.compile(r" !?vc:\d+:[idsmpt]:r( |$)")
+_RVAL = re.compile(r" [!~]*vc:\d+:[idsmpt]:r( |$)")
+_FAULT = re.compile(r"[!~]")
 _MASK = re.compile(r"c=(-?\d+)/-?\d+/-?\d+|src=\S+")
 
 
@@ -273,7 +310,11 @@ def code_for(depth, kind, ti):
 
 def alphabet(sp, depth, tags, full=False, armed=False):
     ops = _alphabet(sp, depth, tags, full)
-    if armed:
+    if armed == "nomem":
+        # every operation in which any.h may call operator new, also with its first / second call failing
+        cp = [o for o in ops if o[:2] in ("ca", "cv", "aa", "av", "vc")]
+        ops = ops + ["~" + o for o in cp] + ["~~" + o for o in cp]
+    elif armed:
         # every operation in which any.h may copy-construct a held object, also with the throwing probe armed
         ops = ops + ["!" + o for o in ops if o[:2] in ("ca", "cv", "aa", "av", "vc")]
     return ops
@@ -454,7 +495,7 @@ def random_seq(g, idx, maxlen, hist, TAGS=TAGS, churn=False, member=None):
             else:
                 tok = "pc:%s:%s:%d" % ("n" if r.random() < 0.1 else str(a), tag, r.randint(0, 1))
         if tok[:2] in ("ca", "cv", "aa", "av", "vc") and r.random() < (0.4 if "t" in TAGS and churn is None else 0.12):
-            tok = "!" + tok
+            tok = r.choice(["!", "!", "~", "~~"]) + tok
         sp.apply(tok, hist)
         toks.append(tok)
     return "anyseq %d F%s %s" % (POOL, ":" + member if member else "", " ".join(toks))
@@ -575,7 +616,7 @@ def run_both(binaries, lines, workers, max_crashes=12):
 def follow(line, h, want):
     """the specification output to hold the implementation against: for histories with armed operations the one
     that throws where the implementation threw"""
-    if "!" in line and h and "crash:" not in h and not h.startswith(("throw:", "bad-")):
+    if _FAULT.search(line) and h and "crash:" not in h and not h.startswith(("throw:", "bad-")):
         try:
             return spec_follow(line, h)
         except Exception:
@@ -731,7 +772,7 @@ def run(ctx):
                     continue
                 if _RVAL.search(line) and not h.startswith("crash") and mask(h) == spec_line(line, rmove=True):
                     continue
-                if "!" in line and not h.startswith("crash") and mask(h) == spec_follow(line, h):
+                if _FAULT.search(line) and not h.startswith("crash") and mask(h) == spec_follow(line, h):
                     continue
                 for kind, key, what in classify(line, h, d, follow(line, h, want)):
                     key = key + "@" + build
@@ -746,7 +787,7 @@ def run(ctx):
             ops = line.split()[3:]
             acc["ops"] += len(ops)
             # non-trivial: at least two operations, one of which (after the first) is not a construction
-            if len(ops) >= 2 and any(o.lstrip("!")[:2] in ("ca", "aa", "av", "sw", "rs", "pk", "pr", "vc", "ds", "pc") for o in ops[1:]):
+            if len(ops) >= 2 and any(o.lstrip("!~")[:2] in ("ca", "aa", "av", "sw", "rs", "pk", "pr", "vc", "ds", "pc") for o in ops[1:]):
                 acc["nontrivial"].add(hl)
             if h == d and mask(h) == want:
                 continue
@@ -756,7 +797,7 @@ def run(ctx):
             if _RVAL.search(line) and not h.startswith("crash") and mask(h) == spec_line(line, rmove=True):
                 acc["mech"].append((line, h, d))      # the rvalue value cast moves the held object out: allowed
                 continue
-            if "!" in line and not h.startswith("crash") and mask(h) == spec_follow(line, h):
+            if _FAULT.search(line) and not h.startswith("crash") and mask(h) == spec_follow(line, h):
                 acc["mech"].append((line, h, d))      # another armed operation threw than in the model: not promised
                 continue
             for kind, key, what in classify(line, h, d, follow(line, h, want)):
@@ -841,6 +882,12 @@ def run(ctx):
                      "the throwing probe throws): all %d sequences of length 1..3%s; a throwing operation must change nothing (strong guarantee of "
                      "copy-and-swap, no half-constructed container) and leak nothing" % (n_thr, "" if ctx.quick() else " and of length 4 over {throwing probe}"))
         random_block(ctx.gen("any-throw"), 0, 150 if ctx.quick() else 2000, ["t", "p", "s"], None, "random-throwing[t,p,s]")
+        # allocation failure: std::string (whose copy allocates a buffer after the holder storage was obtained) and the probe
+        n_mem = enum_block("nomem<=3[s,p]", 3, ["s", "p"], False, builds=("asan", "plain"), armed="nomem")
+        rules.append("allocation failure: reduced alphabet over held types {string, probe} in which every operation that may call operator new "
+                     "also occurs with its first (`~op`: the storage of the holder; for value casts the buffer of the returned copy) and its second "
+                     "(`~~op`: the buffer of the held string copy, after the holder storage was obtained) call throwing std::bad_alloc: all %d "
+                     "sequences of length 1..3; a failing operation must throw, change nothing and leak nothing" % n_mem)
         # ---- held types of every size class, with and without a noexcept move constructor, with a throwing copy constructor:
         # the same reduced enumeration for every member of the sized probe family (the model does not depend on the member)
         t1 = time.time()
@@ -976,5 +1023,6 @@ def run(ctx):
     ctx.assumptions += [
         "moved-from state of std::string (empty), Eigen::MatrixXd (0x0) and of the probe (id -1) as produced by libstdc++ / Eigen 3.4 / the harness",
         "operations on destroyed containers are undefined behaviour and are not executed on the implementation (both sides print inv)",
-        "exceptions thrown by the constructors of held types (bad_alloc, throwing copy constructors) are not modelled",
+        "a copy of a std::string of the pool (70 characters) calls operator new exactly once, a copy of an empty (moved-from) string, of an "
+        "Eigen matrix (malloc) and of the probes never: libstdc++ / Eigen as installed; the harness replaces the global operator new",
     ]
